@@ -504,6 +504,10 @@ def main(prop_id, tier, seed):
     fin = getattr(mod, "finalize", None)
     if fin is not None:
         extra = fin(tier, merged) or {}
+        # a finalizer may run a further campaign (e.g. coverage-guided fuzzing) and hand back violations: [(replay path, failure)]
+        for rel, f in extra.pop("violations", []):
+            if match_known(known, mod, json.load(open(os.path.join(OUT_ROOT, rel) if not os.path.isabs(rel) else rel))["case"], f) is None:
+                violations.append((rel, f))
 
     # generator regression guard
     rc = 0
